@@ -24,6 +24,7 @@ EXHAUSTIVE = {
     "thorough": {"mode orders N<=5 (distinct sizes)": "complete (..+120)", "partial reshape: every mode subset N<=4": "complete",
                  "squeeze 0/1 singleton patterns N<=5": "complete"},
 }
+NPINT_ARGS = True     # a quarter of the cases pass their integer arguments as NumPy integers (core.Ctx.begin)
 WATCHDOG = {"quick": 600, "thorough": 3000}
 
 
